@@ -7,6 +7,7 @@ import (
 	"sort"
 	"strconv"
 	"strings"
+	"verif/sim/simnet"
 
 	"simrt"
 	"verif/sim/model"
@@ -296,6 +297,14 @@ func (r *Run) examineCrashes() {
 				// and the listing shows that size and ETag.  (Atomicity - which
 				// bytes - is judged below; this is "never garbage".)
 				if ks.Status == 200 {
+					// ... and a conditional read whose condition any object meets
+					// (modified since 1970) serves it, whatever the kill has left
+					// of the record of when it was stored
+					if cg := r.quiet2(&simnet.Request{Method: "GET", Target: target(bn, kn, nil), Headers: [][2]string{{"If-Modified-Since", "Thu, 01 Jan 1970 00:00:01 GMT"}}}); cg.Status != 200 {
+						r.closeCrashEnv(env, dir)
+						r.fail("crash.coherent", fmt.Sprintf("after a kill a stored object is not served to a conditional read whose condition it meets (in-flight %s) %s", inflightKind(cp), r.bctx()),
+							"200", fmt.Sprintf("%s: %s/%q If-Modified-Since 1970 -> %s", cp.where, bn, kn, cg.String()))
+					}
 					if ks.ETag != ks.MD5 {
 						r.closeCrashEnv(env, dir)
 						r.fail("crash.coherent", fmt.Sprintf("after a kill an object is served with an ETag that is not the MD5 of the bytes served (in-flight %s) %s", inflightKind(cp), r.bctx()),
